@@ -21,6 +21,7 @@ import fe_server as fs
 
 PROP = "C10"
 SYMS = ["cfg1", "cfg2", "up1", "up2", "search", "reconnL", "reconnE", "foreign", "unknown"]
+SYMS_ALL = SYMS + ["cfgbad", "upbad"]        # + uploads whose content cannot be decoded / stored
 
 
 def fixtures():
@@ -142,6 +143,14 @@ class Replayer:
             msgs = [m for m in fs.decode_server_msgs(self.ws.take_outbox()) if m["type"] != "control"]
             out = self.no_reply() if not msgs else ("refused" if all(m.get("ok") is False for m in msgs) else "garbled")
             self.ev.append({"e": "unknown", "out": out, "d": self.proj()})
+        elif sym in ("cfgbad", "upbad"):
+            # a configuration that does not unpickle / an index that is not a byte string (cannot be written to the file)
+            typ = "config" if sym == "cfgbad" else "upload_edb"
+            self.ws.peer_send(fs.msg(sid, typ, b"\x00not a pickle" if sym == "cfgbad" else None))
+            await self.settle()
+            msgs = [m for m in fs.decode_server_msgs(self.ws.take_outbox()) if m["type"] != "control"]
+            out = self.no_reply() if not msgs else ("refused" if all(m.get("ok") is False for m in msgs) else "garbled")
+            self.ev.append({"e": "malformed", "what": sym, "out": out, "d": self.proj()})
         elif sym == "reconnL":      # close, cleanup delay elapses, then the next connection opens
             self.ws.peer_close()
             await self.drain_timers()
@@ -242,18 +251,29 @@ def main(argv_tier=None, replay_path=None):
         return 0 if verdicts["replay"]["ok"] else 1
 
     D = 4 if tr == "quick" else 5
-    cfg = ("CONSTANTS Cfgs = {1,2}\nIdxs = {1,2}\nD = %d\nSPECIFICATION MCSpec\nINVARIANT Emit\nINVARIANT TypeOK\n"
-           "INVARIANT Consistent\nPROPERTY ForwardOnly\nPROPERTY CfgWriteOnce\nPROPERTY IdxWriteOnce\nCHECK_DEADLOCK FALSE\n" % D)
-    r = run_tlc("MC_ServerSM", cfg, workers=8)
-    hists = sorted({tuple(tla_value(x)[1]) for x in parse_printed(r.out, "H")})
-    if len(hists) != len(SYMS) ** D:
-        raise MachineryError("expected %d histories from TLC, got %d" % (len(SYMS) ** D, len(hists)))
+    def gen(alpha, depth, name):
+        cfg = ("CONSTANTS Cfgs = {1,2}\nIdxs = {1,2}\nD = %d\nAlphabet = {%s}\nSPECIFICATION MCSpec\nINVARIANT Emit\nINVARIANT TypeOK\n"
+               "INVARIANT Consistent\nPROPERTY ForwardOnly\nPROPERTY CfgWriteOnce\nPROPERTY IdxWriteOnce\nCHECK_DEADLOCK FALSE\n"
+               % (depth, ", ".join('"%s"' % a for a in alpha)))
+        rr = run_tlc("MC_ServerSM", cfg, workers=8, name=name)
+        hs = sorted({tuple(tla_value(x)[1]) for x in parse_printed(rr.out, "H")})
+        if len(hs) != len(alpha) ** depth:
+            raise MachineryError("expected %d histories from TLC, got %d" % (len(alpha) ** depth, len(hs)))
+        return rr, hs
+    r, hists = gen(SYMS, D, "mc")
+    # the alphabet with malformed uploads, one level less deep; only the histories that contain one are new
+    r2, h2 = gen(SYMS_ALL, D - 1, "mcbad")
+    nbad = 0
+    for h in h2:
+        if "cfgbad" in h or "upbad" in h:
+            hists.append(h)
+            nbad += 1
     # longer random histories (the model's alphabet, depth 6..12)
     rnd = random.Random(seed())
     nrand = 300 if tr == "quick" else 3000
     for _ in range(nrand):
         n = rnd.randint(D + 1, 12)
-        hists.append(tuple(rnd.choice(SYMS) for _ in range(n)))
+        hists.append(tuple(rnd.choice(SYMS_ALL if _ % 3 == 0 else SYMS) for _k in range(n)))
 
     evs = pmap(lambda a: replay(fx, list(a[1]), a[0]), list(enumerate(hists)))
     traces = [{"tid": "h%d" % k, "ev": ev, "history": list(h)} for (k, h), ev in zip(enumerate(hists), evs)]
@@ -300,7 +320,7 @@ def main(argv_tier=None, replay_path=None):
         "traces_validated_against_impl": len(traces),
         "trace_validation_states": agg["distinct"],
         "evaluations": len(traces), "distinct_nontrivial": nontrivial,
-        "rule": "every history over the 9-symbol alphabet up to depth %d as emitted by TLC from MC_ServerSM, plus %d random "
+        "rule": "every history over the 9-symbol alphabet up to depth %d as emitted by TLC from MC_ServerSM, every history of one level less over the 11-symbol alphabet that contains a malformed upload (config that does not unpickle, index that is not a byte string), plus %d random "
                 "histories of length %d..12; non-trivial = at least one accepted request" % (D, nrand, D + 1),
         "exhaustive": True,
         "loopback_histories": len(sample), "loopback_disagreements": len(mism), "loopback_disagreement_samples": mism[:3],
